@@ -488,6 +488,17 @@ static void check_relational() {
   rel_case<int, int>(shape, ">", (L) > (Rr), (ka) > (kb), ka, kb);            \
   rel_case<int, int>(shape, "<=", (L) <= (Rr), (ka) <= (kb), ka, kb);         \
   rel_case<int, int>(shape, ">=", (L) >= (Rr), (ka) >= (kb), ka, kb);
+      // table entries are Optionals by derivation and take part in the same order
+      nop::Entry<int, 5> ea, eb;
+      nop::Entry<long, 9> leb;
+      if (a >= 0) ea = a;
+      if (b >= 0) { eb = b; leb = (long)b; }
+      REL("Optional-Entry", oa, eb, a, b)
+      REL("Entry-Optional", ea, ob, a, b)
+      REL("Entry-Entry", ea, eb, a, b)
+      REL("Entry<int>-Entry<long>", ea, leb, a, b)
+      if (b >= 0) { REL("Entry-value", ea, b, a, b) }
+      if (a >= 0) { REL("value-Entry", a, eb, a, b) }
       REL("Optional-Optional", oa, ob, a, b)
       REL("Optional<int>-Optional<long>", oa, lb, a, b)
       if (b >= 0) { REL("Optional-value", oa, b, a, b) }
